@@ -103,6 +103,7 @@ struct Cx<'tcx> {
     tcx: TyCtxt<'tcx>,
     enums: BTreeMap<String, String>,
     constvals: BTreeMap<String, String>,
+    strconsts: BTreeMap<String, String>,
 }
 
 fn ty_name<'tcx>(tcx: TyCtxt<'tcx>, t: Ty<'tcx>) -> String {
@@ -315,7 +316,15 @@ impl<'tcx> Cx<'tcx> {
         }
         if let mir::Const::Unevaluated(uv, _) = c.const_ {
             if uv.promoted.is_none() {
-                def = canon(tcx, uv.def);
+                let mut d = uv.def;
+                // `Self::CONST` / `T::CONST` mentions name the trait's associated const: resolve to the impl's const when the type is known
+                if matches!(tcx.def_kind(d), DefKind::AssocConst { .. }) {
+                    let env = TypingEnv::post_analysis(tcx, body_did);
+                    if let Ok(Some(inst)) = Instance::try_resolve(tcx, env, d, uv.args) {
+                        d = inst.def_id();
+                    }
+                }
+                def = canon(tcx, d);
                 out.consts.insert(def.clone());
             } else {
                 // a promoted temporary (e.g. `&NAMED_CONST`): report the named constants it is built from
@@ -375,6 +384,17 @@ impl<'tcx> Cx<'tcx> {
                         let sv = trunc(sv, 200);
                         out.strs.insert(sv.clone());
                         val = sv;
+                    }
+                }
+                if val.is_empty() {
+                    // pattern constants / valtree constants: fall back to the pretty-printed literal `const "..."`
+                    let dbg = format!("{}", c.const_);
+                    if let (Some(a), Some(b)) = (dbg.find('"'), dbg.rfind('"')) {
+                        if b > a {
+                            let sv = trunc(dbg[a + 1..b].to_string(), 200);
+                            out.strs.insert(sv.clone());
+                            val = sv;
+                        }
                     }
                 }
             }
@@ -779,7 +799,7 @@ impl<'tcx> Cx<'tcx> {
 }
 
 fn extract<'tcx>(tcx: TyCtxt<'tcx>, crate_name: &str, out_dir: &str) {
-    let mut cx = Cx { tcx, enums: BTreeMap::new(), constvals: BTreeMap::new() };
+    let mut cx = Cx { tcx, enums: BTreeMap::new(), constvals: BTreeMap::new(), strconsts: BTreeMap::new() };
     let mut full = String::new();
     let mut light = String::new();
     let mut n = 0usize;
@@ -809,6 +829,19 @@ fn extract<'tcx>(tcx: TyCtxt<'tcx>, crate_name: &str, out_dir: &str) {
         if matches!(tcx.def_kind(did), DefKind::Const { .. } | DefKind::AssocConst { .. }) {
             use rustc_middle::ty::TypeVisitableExt;
             let t = tcx.type_of(did).instantiate_identity().skip_norm_wip();
+            let is_str = matches!(t.kind(), ty::Ref(_, inner, _) if inner.is_str());
+            if is_str {
+                if tcx.generics_of(did).requires_monomorphization(tcx) || t.has_non_region_param() {
+                    continue;
+                }
+                if let Ok(cv) = tcx.const_eval_poly(did) {
+                    if let Some(bytes) = cv.try_get_slice_bytes_for_diagnostics(tcx) {
+                        let sv = trunc(String::from_utf8_lossy(bytes).to_string(), 300);
+                        cx.strconsts.insert(canon(tcx, did), sv);
+                    }
+                }
+                continue;
+            }
             if !matches!(t.kind(), ty::Int(_) | ty::Uint(_) | ty::Bool | ty::Char) {
                 continue;
             }
@@ -829,6 +862,9 @@ fn extract<'tcx>(tcx: TyCtxt<'tcx>, crate_name: &str, out_dir: &str) {
     }
     for (k, v) in &cx.enums {
         let _ = write!(light, "{{\"enum\":{},\"variants\":{}}}\n", jstr(k), v);
+    }
+    for (k, v) in &cx.strconsts {
+        let _ = write!(light, "{{\"strconst\":{},\"value\":{}}}\n", jstr(k), jstr(v));
     }
     for (k, v) in &cx.constvals {
         let _ = write!(light, "{{\"const\":{},\"value\":{}}}\n", jstr(k), jstr(v));
